@@ -226,6 +226,7 @@ func (p *Plan) planMergedFieldChildren(fp *fieldPlan) {
 // Concurrency-safe: ExecutePlan resolves fields concurrently, so several
 // goroutines may reach the same abstract field at once.
 func (p *Plan) abstractAlternative(fp *fieldPlan, runtimeType *Object) *selectionPlan {
+	simYield("plan.abstract.lock")
 	p.abstractMu.Lock()
 	defer p.abstractMu.Unlock()
 	if fp.abstractAlternatives == nil {
@@ -588,6 +589,7 @@ func ExecutePlan(plan *Plan, p ExecuteParams) (result *Result) {
 	resultChannel := make(chan *Result, 2)
 	go func() {
 		out := &Result{}
+		simYieldCtx(ctx, "plan.exec.start")
 		defer func() {
 			if err := recover(); err != nil {
 				if e, ok := err.(error); ok {
@@ -596,6 +598,7 @@ func ExecutePlan(plan *Plan, p ExecuteParams) (result *Result) {
 					out.Errors = append(out.Errors, gqlerrors.FormatError(fmt.Errorf("%v", err)))
 				}
 			}
+			simYield("plan.exec.send")
 			resultChannel <- out
 		}()
 
@@ -636,6 +639,7 @@ func ExecutePlan(plan *Plan, p ExecuteParams) (result *Result) {
 		out.Errors = append(out.Errors, eCtx.Errors...)
 	}()
 
+	simYieldCtx(ctx, "plan.caller.select")
 	select {
 	case <-ctx.Done():
 		r := &Result{}
